@@ -187,6 +187,10 @@ def make_specs():
         if sp.qualname.startswith("BaseObserver.") and sp.qualname != "BaseObserver.start":
             sp.prop = PROP
             specs.append(sp)
+    from specs import c16
+    for sp in c16.make_specs():   # FIFO / no-loss of the observer's event queue
+        sp.prop = PROP
+        specs.append(sp)
     return specs
 
 
